@@ -147,21 +147,30 @@ Definition spec_note (today : date) (ot op : list (list (str * str))) (od : list
                end;
      n_zid := ident_zid (i_ident it) |}.
 
-(* ---- blocks: items on consecutive lines, followed by one blank line ---- *)
-Definition block := list item.
-Fixpoint tree_of_items (l : nat) (its : list item) : list tree :=
+(* ---- blocks: items and in-block comments on consecutive lines, followed by one blank line ---- *)
+Inductive belem := BItem (it : item) | BComment (ws : list word).
+Definition block := list belem.
+Definition tree_of_elem (l : nat) (e : belem) : tree :=
+  match e with
+  | BItem it => tree_of_item l it
+  | BComment ws => nd "item" l [nd "comment" l [tks "HASH" "#"; tree_of_words l ws; tks "NL" "
+"]]
+  end.
+Fixpoint tree_of_items (l : nat) (its : list belem) : list tree :=
   match its with
   | [] => []
-  | it :: r => tree_of_item l it :: tree_of_items (Datatypes.S l) r
+  | it :: r => tree_of_elem l it :: tree_of_items (Datatypes.S l) r
   end.
 Definition tree_of_block (l : nat) (b : block) : tree :=
   nd "block" l (tree_of_items l b ++ [tks "NL" "
 "]).
+(* a comment yields no note and contributes nothing to the notes around it; it occupies its line *)
 Fixpoint spec_items (today : date) (ot op : list (list (str * str))) (od : list (option date))
-         (key : list nat) (l : nat) (its : list item) : list note :=
+         (key : list nat) (l : nat) (its : list belem) : list note :=
   match its with
   | [] => []
-  | it :: r => spec_note today ot op od key l it :: spec_items today ot op od key (Datatypes.S l) r
+  | BItem it :: r => spec_note today ot op od key l it :: spec_items today ot op od key (Datatypes.S l) r
+  | BComment _ :: r => spec_items today ot op od key (Datatypes.S l) r
   end.
 
 Fixpoint tree_of_blocks (l : nat) (bs : list block) : list tree :=
@@ -297,15 +306,18 @@ Definition dKind (x : sexp) : option tkind :=
   else if eqb_str s (S "~") then Some TCancelled else if eqb_str s (S "<") then Some TBlocked else Some TParent.
 Definition dItem (x : sexp) : item :=
   mkItem (dKind (nthS 0 x)) (dOpt dStr (nthS 1 x)) (dIdent (nthS 2 x)) (dList dWord (nthS 3 x)).
+(* ("#" (word ...)) is an in-block comment, anything else an item *)
+Definition dElem (x : sexp) : belem :=
+  if eqb_str (dStr (nthS 0 x)) (S "#") then BComment (dList dWord (nthS 1 x)) else BItem (dItem x).
 Fixpoint dSec_fuel (fuel : nat) (x : sexp) : gsec :=
   match fuel with
   | O => GSec [] [] []
   | Datatypes.S f' =>
-      GSec (dList dWord (nthS 0 x)) (dList (dList dItem) (nthS 1 x))
+      GSec (dList dWord (nthS 0 x)) (dList (dList dElem) (nthS 1 x))
            (match nthS 2 x with SL l => map (dSec_fuel f') l | _ => [] end)
   end.
 Definition dPage (x : sexp) : apage :=
-  mkPg (dList dWord (nthS 0 x)) (dList (dList dItem) (nthS 1 x))
+  mkPg (dList dWord (nthS 0 x)) (dList (dList dElem) (nthS 1 x))
        (match nthS 2 x with SL l => map (dSec_fuel 8) l | _ => [] end)
        (match nthS 3 x with SL l => map (dSec_fuel 8) l | _ => [] end).
 
@@ -350,16 +362,19 @@ Definition valid_itemb (it : item) : bool :=
   valid_identb (i_ident it) && after_mod_okb (i_ident it) (i_words it) &&
   nonempty body && negb (contains (S ":: ") body) && negb (contains (S "::" ++ [nlc]) body).
 Definition valid_mwordb (w : word) : bool := match w with WDate d => is_ok (from_long d) | _ => true end.
+Definition valid_elemb (e : belem) : bool :=
+  (* the parser builds no space_atoms node for a comment without words: such comments are outside the modelled trees *)
+  match e with BItem it => valid_itemb it | BComment ws => match ws with [] => false | _ => true end end.
 Fixpoint valid_secb (lvl : nat) (s : gsec) : bool :=
   match s with
   | GSec title bs subs =>
-      (lvl <? 4)%nat && forallb valid_mwordb title && forallb (forallb valid_itemb) bs &&
+      (lvl <? 4)%nat && forallb valid_mwordb title && forallb (forallb valid_elemb) bs &&
       (fix go (ss : list gsec) : bool := match ss with [] => true | s' :: r => valid_secb (Datatypes.S lvl) s' && go r end) subs
   end.
 Fixpoint valid_secsb (lvl : nat) (ss : list gsec) : bool :=
   match ss with [] => true | s' :: r => valid_secb lvl s' && valid_secsb lvl r end.
 Definition valid_pageb (pg : apage) : bool :=
-  forallb valid_mwordb (pg_title pg) && forallb (forallb valid_itemb) (pg_blocks pg) &&
+  forallb valid_mwordb (pg_title pg) && forallb (forallb valid_elemb) (pg_blocks pg) &&
   valid_secsb 1 (pg_h2s pg) && valid_secsb 0 (pg_h1s pg).
 
 Definition cmd_page_valid (args : list sexp) : sexp :=
